@@ -1,4 +1,181 @@
-/-! Line protocol handler for the `doc` domain (stub until the model exists). -/
+import OFCore.Builder
+import OFCore.Drv.Util
+/-!
+Line protocol handler for the `doc` domain (C12).
+
+    doc build <sys> <default period | -> <document>   ->  OK <entities> <store> | SITUATION | ERR | UNMODELLED | BAD
+
+`<sys>` and `<document>` are trees in a blank-free prefix notation (every item is self-delimiting):
+
+    n | t | f | i<int>; | r<num>/<den>; | s<hex of ASCII>; | [ item* ] | { (key item)* }      key = s<hex>; | i<int>;
+
+`<sys>` = {pk, pp, groups:[{key, plural, roles:[{key, plural|n, max|n, sub:[…]}]}],
+           vars:[{name, entity, type: "int"|"float"|"bool"|"str"|"date"|[enum names], unit, default, rule}]}
+
+`<entities>` = `key:ids:count:members_entity_id:members_role:members_position` joined by `;`
+(ids and role keys in hex, `-` = empty list); `<store>` = `var(hex)@period text=v,v,…` joined by
+`;`, sorted; values `i<int>` `n<p>/<q>` `T` `F` `s<hex>` `d<ordinal>` `e<index>`.
+-/
 namespace OFCore.Drv
-def handleDoc (_args : List String) : String := "BAD"
+open OFCore.Bld
+
+/-! ### reading trees -/
+
+def takeUntil (stop : Char) : List Char → Option (List Char × List Char)
+  | [] => none
+  | c :: cs => if c = stop then some ([], cs) else (takeUntil stop cs).map (fun (a, r) => (c :: a, r))
+
+def readInt (cs : List Char) : Option Int := (String.ofList cs).toInt?
+
+def readKey : List Char → Option (DKey × List Char)
+  | 's' :: cs => do
+    let (h, r) ← takeUntil ';' cs
+    let t ← unhex (String.ofList h)
+    pure (.s (String.ofList t), r)
+  | 'i' :: cs => do
+    let (h, r) ← takeUntil ';' cs
+    pure (.i (← readInt h), r)
+  | _ => none
+
+mutual
+partial def readDoc : List Char → Option (Doc × List Char)
+  | 'n' :: r => some (.null, r)
+  | 't' :: r => some (.bool true, r)
+  | 'f' :: r => some (.bool false, r)
+  | 'i' :: cs => do
+    let (h, r) ← takeUntil ';' cs
+    pure (.int (← readInt h), r)
+  | 'r' :: cs => do
+    let (h, r) ← takeUntil ';' cs
+    match (String.ofList h).splitOn "/" with
+    | [p, q] =>
+      let p ← p.toInt?; let q ← q.toNat?
+      if q = 0 then none else pure (.num ((p : Rat) / (q : Rat)), r)
+    | _ => none
+  | 's' :: cs => do
+    let (h, r) ← takeUntil ';' cs
+    let t ← unhex (String.ofList h)
+    pure (.str (String.ofList t), r)
+  | '[' :: cs => do
+    let (xs, r) ← readItems cs
+    pure (.arr xs, r)
+  | '{' :: cs => do
+    let (kvs, r) ← readPairs cs
+    pure (.obj kvs, r)
+  | _ => none
+partial def readItems : List Char → Option (List Doc × List Char)
+  | ']' :: r => some ([], r)
+  | cs => do
+    let (d, r) ← readDoc cs
+    let (ds, r') ← readItems r
+    pure (d :: ds, r')
+partial def readPairs : List Char → Option (List (DKey × Doc) × List Char)
+  | '}' :: r => some ([], r)
+  | cs => do
+    let (k, r) ← readKey cs
+    let (d, r') ← readDoc r
+    let (kvs, r'') ← readPairs r'
+    pure ((k, d) :: kvs, r'')
+end
+
+def readTree (s : String) : Option Doc :=
+  match readDoc s.toList with
+  | some (d, []) => some d
+  | _ => none
+
+/-! ### the system -/
+
+def fStr (kvs : List (DKey × Doc)) (k : String) : Option String := (lookupS k kvs).bind Doc.str?
+def fArr (kvs : List (DKey × Doc)) (k : String) : Option (List Doc) := (lookupS k kvs).bind Doc.asArr?
+
+def readRole (d : Doc) : Option Role := do
+  let kvs ← d.asObj?
+  let sub ← (← fArr kvs "sub").mapM Doc.str?
+  pure ⟨← fStr kvs "key", fStr kvs "plural", (lookupS "max" kvs).bind Doc.nat?, sub⟩
+
+def readGroup (d : Doc) : Option GroupKind := do
+  let kvs ← d.asObj?
+  pure ⟨← fStr kvs "key", ← fStr kvs "plural", ← (← fArr kvs "roles").mapM readRole⟩
+
+def readVType (d : Doc) : Option VType :=
+  match d with
+  | .str "int" => some .int | .str "float" => some .float | .str "bool" => some .bool
+  | .str "str" => some .str | .str "date" => some .date
+  | .arr xs => (xs.mapM Doc.str?).map VType.enum
+  | _ => none
+
+def readDefault (t : VType) (d : Doc) : Option Val :=
+  match t, d with
+  | .int, .int i => some (.int i)
+  | .float, .int i => some (.num i)
+  | .float, .num r => some (.num r)
+  | .bool, .bool b => some (.bool b)
+  | .str, .str s => some (.str s)
+  | .date, .int o => some (.date o)
+  | .enum _, .int k => some (.enum k.toNat)
+  | _, _ => none
+
+def readRule : String → Option SRule
+  | "absent" => some .absent | "dispatch" => some .dispatch | "divide" => some .divide | _ => none
+
+def readVar (d : Doc) : Option Var := do
+  let kvs ← d.asObj?
+  let t ← readVType (← lookupS "type" kvs)
+  pure ⟨← fStr kvs "name", ← fStr kvs "entity", t, ← DUnit.ofName (← fStr kvs "unit"),
+    ← readDefault t (← lookupS "default" kvs), ← readRule (← fStr kvs "rule")⟩
+
+def readSys (d : Doc) : Option Sys := do
+  let kvs ← d.asObj?
+  pure ⟨← fStr kvs "pk", ← fStr kvs "pp", ← (← fArr kvs "groups").mapM readGroup,
+    ← (← fArr kvs "vars").mapM readVar⟩
+
+/-! ### printing -/
+
+def hexS (s : String) : String := tohex s.toList
+
+def showList (xs : List String) : String := if xs.isEmpty then "-" else ",".intercalate xs
+
+def showVal : Val → String
+  | .int i => s!"i{i}"
+  | .num r => s!"n{r.num}/{r.den}"
+  | .bool b => if b then "T" else "F"
+  | .str s => "s" ++ hexS s
+  | .date o => s!"d{o}"
+  | .enum k => s!"e{k}"
+
+/-- `GroupPopulation.members_position` -/
+def positions (memb : List Nat) : List Nat :=
+  (List.zipIdx memb).map (fun (g, i) => ((memb.take i).filter (· == g)).length)
+
+def showEnt (e : Ent) : String :=
+  ":".intercalate [e.key, showList (e.ids.map hexS), toString e.count,
+    showList (e.memb.map toString), showList (e.roles.map hexS), showList ((positions e.memb).map toString)]
+
+def showStore (s : Store) : String :=
+  let entries := s.map (fun (e : (String × Period) × Vec) =>
+    hexS e.1.1 ++ "@" ++ String.ofList e.1.2.text ++ "=" ++ showList (e.2.map showVal))
+  let sorted := entries.mergeSort (fun a b => decide (a ≤ b))
+  if sorted.isEmpty then "-" else ";".intercalate sorted
+
+def showSim : R Sim → String
+  | .ok sim => "OK " ++ ";".intercalate (sim.ents.map showEnt) ++ " " ++ showStore sim.store
+  | .error .situation => "SITUATION"
+  | .error .other => "ERR"
+  | .error .unmodelled => "UNMODELLED"
+
+def handleDoc (args : List String) : String :=
+  match args with
+  | ["build", sysT, dpT, docT] =>
+    match (readTree sysT).bind readSys, readTree docT with
+    | some sys, some doc =>
+      if dpT = "-" then showSim (buildFromDict sys none stdSetInput doc) else
+      match (unhex dpT).map String.ofList with
+      | none => "BAD"
+      | some raw =>
+        match setDefaultPeriod raw with
+        | .error _ => "ERR"
+        | .ok dp => showSim (buildFromDict sys (some dp) stdSetInput doc)
+    | _, _ => "BAD"
+  | _ => "BAD"
+
 end OFCore.Drv
